@@ -249,7 +249,21 @@ func c31Run(t *testing.T, cfg c31Cfg, c *vsched.Chooser) vsched.Outcome {
 		for step := 0; step < 64; step++ {
 			var en []int
 			if !stopFired {
+				// gate-activate: clients that wait for an activation in progress (singleflight) are
+				// released together and would race for the mailbox in real time. To keep an execution
+				// a deterministic function of the choices at most ONE TellGrain client is in flight
+				// there: it waits behind the initial GrainIdentity call, or it re-activates alone.
+				pending := 0
+				for _, cl := range clients[1:] {
+					if !cl.done.Load() {
+						pending++
+					}
+				}
+				mayTell := cfg.gateOn != "act" || pending == 0
 				for _, e := range []int{c31EvSend, c31EvPill, c31EvAdvT, c31EvAdv2m, c31EvSysStop} {
+					if (e == c31EvSend || e == c31EvPill) && !mayTell {
+						continue
+					}
 					if left[e] > 0 {
 						en = append(en, e)
 					}
@@ -541,10 +555,10 @@ func TestVerifC31(t *testing.T) {
 	r.Assumption("single non-clustered node, one non-reentrant grain identity; hooks overlap only at the gated hook of the scenario (no instruction-level interleaving inside the engine)")
 	r.Assumption("the hooks ignore their context: an OnActivate held longer than the init timeout still completes")
 	cfgs := []c31Cfg{
-		{name: "gate-activate", gateOn: "act", sends: vsched.Pick(2, 3), pills: 1, advT: 1, adv2m: vsched.Pick(0, 1)},
-		{name: "gate-none", gateOn: "", sends: 3, pills: 2, advT: 1, adv2m: 1},
-		{name: "gate-receive", gateOn: "recv", sends: 3, pills: vsched.Pick(1, 2), advT: 1, adv2m: vsched.Pick(0, 1)},
-		{name: "gate-deactivate", gateOn: "deact", sends: vsched.Pick(2, 3), pills: 2, advT: 1, adv2m: vsched.Pick(0, 1)},
+		{name: "gate-activate", gateOn: "act", sends: vsched.Pick(2, 4), pills: vsched.Pick(1, 2), advT: 1, adv2m: vsched.Pick(0, 1)},
+		{name: "gate-none", gateOn: "", sends: vsched.Pick(3, 4), pills: 2, advT: 1, adv2m: 1},
+		{name: "gate-receive", gateOn: "recv", sends: vsched.Pick(3, 4), pills: vsched.Pick(1, 2), advT: 1, adv2m: vsched.Pick(0, 1)},
+		{name: "gate-deactivate", gateOn: "deact", sends: vsched.Pick(2, 4), pills: 2, advT: 1, adv2m: vsched.Pick(0, 1)},
 	}
 	var scs []vsched.Scenario
 	for _, cfg := range cfgs {
